@@ -77,3 +77,9 @@ func TestC01Regress(t *testing.T) {
 		}
 	}
 }
+
+func TestC01Mid(t *testing.T) {
+	st := NewStats("C01Mid", c01Rule)
+	defer st.Flush()
+	rapid.Check(t, c01Prop(st, FamMid))
+}
